@@ -207,6 +207,7 @@ type state struct {
 	routes   []*route.Route
 	built    bool
 	vh       vhState
+	mesh     meshState
 }
 
 func newState() *state {
@@ -226,6 +227,7 @@ func (s *state) reset() {
 	s.routes = nil
 	s.built = false
 	s.vh = vhState{}
+	s.mesh = meshState{}
 }
 
 func atoi(t string) int {
@@ -407,6 +409,9 @@ func step(s *state, stream string, f []string) string {
 		return showDecision(evalRoutes(s.routes, parseReq(f)))
 	}
 	if r, ok := s.vhStep(stream, f); ok {
+		return r
+	}
+	if r, ok := s.rdsStep(f); ok {
 		return r
 	}
 	return "bad-op"
